@@ -411,6 +411,9 @@ class StageBlock(Block):
 
             hetoutputs = None
             if stage.hetoutputs is not None:
+                # hetoutputs are evaluated on the stage's inputs AND its own outputs, which supersede inputs of the same name
+                # (a backward variable enters the stage as the continuation value and leaves it as the stage's own value)
+                potential_inputs = {**potential_inputs, **stage.backward_step(input)}
                 hetoutputs_inputs = {k: potential_inputs[k] for k in stage.hetoutputs.inputs}
                 hetoutputs = stage.hetoutputs.differentiable(hetoutputs_inputs)
 
